@@ -140,7 +140,9 @@ def st_element(
             if draw(st.integers(0, 3 if state != "full" else 5)) == 0:
                 continue  # leave at class default
             p: Dict[str, Any] = {}
-            v = draw(value_strategy(inf_, allow_open=allow_open and sym == "R", short_mantissa=short_mantissa))
+            # open branches: Resistor(R=inf) as in the repository's tests, and every other element with an unbounded
+            # resistance parameter (Zarc, Ga, Ha, K: R=inf is inside their limits and makes the element open)
+            v = draw(value_strategy(inf_, allow_open=allow_open and k == "R" and not sym.startswith("X"), short_mantissa=short_mantissa))
             if distinct is not None:
                 tries = 0
                 while v in distinct and tries < 20:
@@ -478,25 +480,39 @@ def build_objects(ast):
     return Circuit(_build_node(ast))
 
 
-def build_builder(ast):
-    """CircuitBuilder path (goes through a 12-decimal CDC internally)."""
+def build_builder(ast, peek=None, use_iadd=None):
+    """CircuitBuilder path (goes through a 12-decimal CDC internally).
+    `peek(root_builder, current_builder)` is called after every step of the building history (used to interleave
+    str()/to_string()/to_circuit() calls); `use_iadd(i)` chooses `+=` instead of `.add()` for the i-th element."""
     from pyimpspec import CircuitBuilder
 
-    def fill(ctx, node):
+    count = [0]
+
+    def fill(root, ctx, node):
         for c in node[1]:
             if c[0] == "E":
-                ctx.add(build_element(c))
+                if use_iadd is not None and use_iadd(count[0]):
+                    ctx += build_element(c)
+                else:
+                    ctx.add(build_element(c))
+                count[0] += 1
             elif c[0] == "S":
                 with ctx.series() as s:
-                    fill(s, c)
+                    if peek:
+                        peek(root, s)
+                    fill(root, s, c)
             else:
                 with ctx.parallel() as p:
-                    fill(p, c)
+                    if peek:
+                        peek(root, p)
+                    fill(root, p, c)
+            if peek:
+                peek(root, ctx)
 
     root = ast if ast[0] == "S" else ["S", [ast]]
     with CircuitBuilder() as b:
-        fill(b, root)
-    return b.to_circuit()
+        fill(b, b, root)
+    return b.to_circuit() if peek is None else b
 
 
 # --------------------------------------------------------------------------- printer
